@@ -143,16 +143,19 @@ def flush_drift(H):
     return False
 
 
+def note_drift(H, tag, what, **kw):
+    if getattr(H, 'pending_drift', None) is None:
+        H.pending_drift = (tag, what, kw)
+
+
 def sync_with_model(H, st0, lst, opts, nocopy=False, prehash=False, expect_fail=None):
     """(1) a real sync killed by the shim before its first parity write leaves the post-scan state in the content file;
     (2) the real sync with the scenario's options; the model predicts both states from st0 + listing (+ the data for (2)).
     Returns the Result of (2) (a disagreement is left in H.pending_drift for flush_drift), or False after a model failure."""
     w, a = H.w, H.w.arr
-    H.pending_drift = None
 
     def note(tag, what, **kw):
-        if H.pending_drift is None:
-            H.pending_drift = (tag, what, kw)
+        note_drift(H, tag, what, **kw)
     extra = (['-N'] if nocopy else []) + (['-h'] if prehash else [])
     # everything the model needs, serialised BEFORE the tool runs
     c_toks = w.ser_content(st0)
